@@ -371,7 +371,6 @@ func gen(r *hx.Rng, tier string, i int) []hx.Zs {
 func main() {
 	hx.Main(hx.Config{
 		Property: "C13",
-		Model:    "c13",
 		Clauses: map[int64]string{1: "counter-duplicated", 2: "counter-not-increasing", 3: "withheld-without-unanswered-identical-request",
 			4: "wrong-datagram-or-return", 5: "lru-get-refreshes-recency", 6: "retrieved-wrong-datagram", 98: "unparseable-observation", 99: "unparseable-operation"},
 		OpNames: map[int64]string{0: "request", 1: "response", 2: "notify", 3: "reply/result/write", 4: "lookup"},
